@@ -26,7 +26,9 @@ def scenarios(tier):
           # a hash migration is pending while the sync is interrupted
           ("adds-rehash", Config(levels=2, ndisks=2), base + [("cmd", "rehash")], adds, True, ())]
     sc += [("adds-autosave", Config(levels=2, ndisks=2), base, adds, True, ("--test-force-autosave-at", "3")),
-           ("mixed-prehash", Config(levels=1, ndisks=2), base, mixed, False, ("-h",))]
+           ("mixed-prehash", Config(levels=1, ndisks=2), base, mixed, False, ("-h",)),
+           ("adds-prehash", Config(levels=2, ndisks=2), base, adds, True, ("-h",)),
+           ("adds-hash8", Config(levels=2, ndisks=2, hashkind="spooky2", hashsize=8), base, adds, True, ())]
     if tier == "thorough":
         sc += [("adds", Config(levels=3, ndisks=2, splits={0: 2, 1: 2, 2: 2}, parity_limit=4096), base, adds, True, ()),
                ("mixed", Config(levels=6, ndisks=2), base, mixed, False, ()),
@@ -259,6 +261,8 @@ def run(ctx):
                 if cfg.levels == 1 and r["mode"] == "torn" and cc == "parity-pwrite" and v["kind"] in (
                         "synced-file-unrecoverable-meanwhile",):
                     key = "C07/torn-parity-write-single-level"
+                elif "-h" in args and r["mode"] == "torn" and cc == "parity-pwrite" and v["kind"] == "synced-file-unrecoverable-meanwhile":
+                    key = "C07/torn-parity-write-after-prehash"
                 ctx.violation(key, "%s: %s in %s" % (v["kind"], v["where"], label),
                               dict(scenario=name, cfg=cfg.describe(), base=base, pending=pending, args=args, job=j[0],
                                    k=j[1][3], mode=r["mode"], adds_only=adds_only, violation=v))
